@@ -293,7 +293,122 @@ def argument_mutation(model: Model, run: Run, fns) -> None:
     run.floor("asn1 functions checked for argument mutation", n, 30)
 
 
+def writer_factories(model: Model, run: Run) -> None:
+    """A subclass of ASN1Writer that overrides the flush (__exit__) or the buffer accessors assembles the nested TLV with
+    code the flush rule (S6) does not look at: that is outside what this check can decide."""
+    wq = f"{ASN1}.ASN1Writer"
+    for cq in model.subclasses(wq, strict=True):
+        for name in ("__exit__", "__enter__", "get_data"):
+            own = model.classes[cq].methods.get(name)
+            if own is not None:
+                raise AnalysisError(f"{cq.split('.')[-1]} overrides ASN1Writer.{name}: the flush rules are written for the one implementation in ASN1Writer")
+
+
+def must_pass(stmts: List[ast.stmt], hit) -> bool:
+    """every path through `stmts` that returns or falls off the end has executed a statement/expression for which hit() holds
+    (raising paths do not count; loops may run zero times; handlers start from the state before the try)"""
+    def expr_hit(e) -> bool:
+        return e is not None and any(hit(x) for x in ast.walk(e))
+
+    def walk(block, done: bool):
+        """-> (set of `done` values at the normal end, set of `done` values at returns)"""
+        ends = {done}
+        rets = set()
+        for s_ in block:
+            nxt = set()
+            for d in ends:
+                if isinstance(s_, ast.If):
+                    d2 = d or expr_hit(s_.test)
+                    for br in (s_.body, s_.orelse):
+                        e_, r_ = walk(br, d2)
+                        nxt |= e_
+                        rets |= r_
+                elif isinstance(s_, (ast.For, ast.While)):
+                    d2 = d or expr_hit(s_.iter if isinstance(s_, ast.For) else s_.test)
+                    e_, r_ = walk(s_.body, d2)
+                    rets |= r_
+                    e2, r2 = walk(s_.orelse, d2)
+                    rets |= r2
+                    nxt |= {d2} | e2 | (e_ if any(isinstance(x, ast.Break) for x in ast.walk(s_)) else set())
+                elif isinstance(s_, ast.Try):
+                    e_, r_ = walk(s_.body + s_.orelse, d)
+                    rets |= r_
+                    nxt |= e_
+                    for h in s_.handlers:
+                        eh, rh = walk(h.body, d)
+                        nxt |= eh
+                        rets |= rh
+                    if s_.finalbody:
+                        fin = set()
+                        for x in nxt:
+                            ef, rf = walk(s_.finalbody, x)
+                            fin |= ef
+                            rets |= rf
+                        nxt = fin
+                elif isinstance(s_, ast.With):
+                    d2 = d or any(expr_hit(i.context_expr) for i in s_.items)
+                    e_, r_ = walk(s_.body, d2)
+                    nxt |= e_
+                    rets |= r_
+                elif isinstance(s_, ast.Return):
+                    rets.add(d or expr_hit(s_.value))
+                elif isinstance(s_, ast.Raise):
+                    pass
+                elif isinstance(s_, (ast.Break, ast.Continue)):
+                    pass
+                elif isinstance(s_, (ast.FunctionDef, ast.AsyncFunctionDef, ast.ClassDef)):
+                    nxt.add(d)
+                else:
+                    nxt.add(d or any(hit(x) for x in ast.walk(s_)))
+            ends = nxt
+            if not ends:
+                break
+        return ends, rets
+    e_, r_ = walk(stmts, False)
+    return all(e_) and all(r_)
+
+
+def writes_unconditional(model: Model, run: Run, rule: str = "S8-every-write-reaches-the-buffer") -> None:
+    """S8: in ASN1Writer and every subclass of it, each write_* method adds to the writer's buffer (or hands over to another
+    write_* of the same object) on every path that returns normally.  A write that can return without having written is a
+    silently dropped value: the caller's message is encoded with a component missing."""
+    from collections import Counter
+    wq = f"{ASN1}.ASN1Writer"
+    wr = model.cls(wq)
+    ext = Counter(norm(c.func.value) for m_ in wr.methods.values() if m_.name.startswith("write_") for c in ast.walk(m_.node)
+                  if isinstance(c, ast.Call) and isinstance(c.func, ast.Attribute) and c.func.attr == "extend" and norm(c.func.value).startswith("self."))
+    if not ext:
+        raise AnalysisError("ASN1Writer.write_* methods do not extend an attribute of self")
+    buf = ext.most_common(1)[0][0]
+
+    def hit(x) -> bool:
+        if isinstance(x, ast.Call) and isinstance(x.func, ast.Attribute):
+            if norm(x.func.value) == buf and x.func.attr in ("extend", "append", "__iadd__"):
+                return True
+            if x.func.attr.startswith("write_") and (isinstance(x.func.value, ast.Name) and x.func.value.id == "self" or
+                                                     isinstance(x.func.value, ast.Call) and norm(x.func.value.func) == "super"):
+                return True
+        if isinstance(x, ast.AugAssign) and norm(x.target) == buf and isinstance(x.op, ast.Add):
+            return True
+        return False
+    n = 0
+    for cq in model.subclasses(wq):
+        for m_ in model.classes[cq].methods.values():
+            if not m_.name.startswith("write_") or isinstance(m_.node, ast.Lambda):
+                continue
+            n += 1
+            ok = must_pass(m_.node.body, hit)
+            run.ob(rule, ok, {"method": m_.qualname.split("sansldap.")[-1]})
+            if not ok:
+                run.fail(Finding(rule, m_.qualname, f"{m_.name}|no-write-path", f"{m_.qualname.split('sansldap.')[-1]} can return without adding anything to `{buf}`: "
+                                 "the value handed to it is silently left out of the encoding", model.loc(m_.module, m_.node)))
+    run.floor("write_* methods of the writer classes", n, 4)
+
+
 def constructed_flush(model: Model, run: Run) -> None:
+    writes_unconditional(model, run)
+    writer_factories(model, run)
+
     """S6: when a nested writer is closed, the packing routine receives the three fields of the tag the writer was opened
     with (each from the stored tag, matched to the routine's parameters by type) and the octets accumulated by the write_*
     calls, untouched.  A constant in place of a tag field, or contents that went through another function first, makes the
